@@ -16,7 +16,7 @@ open PGV PGV.Model
 inductive Measure where
   | int (z : Int)
   | real (f : FloatVal)      -- finite or ±∞ (NaN has no numeric value: out of scope)
-deriving Repr
+deriving Repr, DecidableEq
 
 def measure : GoVal → Option Measure
   | .str s => some (.int (runeCount s))
@@ -41,9 +41,9 @@ inductive SizeRule where
 deriving Repr, DecidableEq
 
 def SizeRule.ofKey (k : Bytes) : Option SizeRule :=
-  if k == b "to" then some .to else if k == b "ge" then some .ge else if k == b "le" then some .le
-  else if k == b "oto" then some .oto else if k == b "gt" then some .gt else if k == b "lt" then some .lt
-  else if k == b "eq" then some .eq else if k == b "noeq" then some .noeq else none
+  if k == b! "to" then some .to else if k == b! "ge" then some .ge else if k == b! "le" then some .le
+  else if k == b! "oto" then some .oto else if k == b! "gt" then some .gt else if k == b! "lt" then some .lt
+  else if k == b! "eq" then some .eq else if k == b! "noeq" then some .noeq else none
 
 /-- membership of the measure in the set the rule states (`hi` is used by `to`/`oto` only) -/
 def inSet (r : SizeRule) (lo hi : Int) (m : Measure) : Bool :=
@@ -56,6 +56,20 @@ def inSet (r : SizeRule) (lo hi : Int) (m : Measure) : Bool :=
   | .lt => cmp m lo == .lt
   | .eq => cmp m lo == .eq
   | .noeq => cmp m lo != .eq
+
+/-- the bound argument of a rule read as integers: `lo~hi` for `to`/`oto`, `lo` otherwise
+(`strconv.Atoi` syntax; "integer bounds" in the property) -/
+def parseBounds (r : SizeRule) (arg : Bytes) : Option (Int × Int) :=
+  if r == .to || r == .oto then
+    match Bytes.splitByte 126 arg with
+    | [a, c] =>
+      let (lo, e1) := atoi a
+      let (hi, e2) := atoi c
+      if e1 || e2 then none else some (lo, hi)
+    | _ => none
+  else
+    let (lo, e) := atoi arg
+    if e then none else some (lo, 0)
 
 /-- the rule text `key=lo[~hi][|msg]` read independently of the implementation's parser:
 `some (rule, lo, hi)` when it is one of the eight rules with integer bounds -/
@@ -73,24 +87,20 @@ def readRule (text : Bytes) : Option (SizeRule × Int × Int) :=
   | some i =>
     match SizeRule.ofKey (body.take i) with
     | none => none
-    | some r =>
-      let arg := body.drop (i + 1)
-      if r == .to || r == .oto then
-        match Bytes.splitByte 126 arg with
-        | [a, c] =>
-          let (lo, e1) := atoi a
-          let (hi, e2) := atoi c
-          if e1 || e2 then none else some (r, lo, hi)
-        | _ => none
-      else
-        let (lo, e) := atoi arg
-        if e then none else some (r, lo, 0)
+    | some r => (parseBounds r (body.drop (i + 1))).map fun (lo, hi) => (r, lo, hi)
 
 /-- verdict the property demands: `some true` = violated, `none` = outside the property's quantifier -/
 def violated (text : Bytes) (v : GoVal) : Option Bool :=
   match readRule text, measure v with
   | some (r, lo, hi), some m => if v.isZero then none else some (!inSet r lo hi m)
   | _, _ => none
+
+/-- `float64(bound)` is exact: the bound has at most 53 significant bits (|bound| < 2^53).  Outside
+this window the conversion rounds (finding F-C01-e) -/
+def boundsExact (v : GoVal) (lo hi : Int) : Bool :=
+  match v with
+  | .float _ _ _ _ => bitLen lo.natAbs ≤ 53 && bitLen hi.natAbs ≤ 53
+  | _ => true
 
 /-- float bounds beyond ±2^53 are converted with rounding by `float64(min)` (finding F-C01-e) -/
 def floatBoundBeyond53 (text : Bytes) (v : GoVal) : Bool :=
